@@ -106,7 +106,7 @@ class Check:
         if r.returncode not in (0, 1) and 'panicked' in r.stderr: out['panic'] = r.stderr.strip()[-300:]
         out['reproduced'] = out.get('reproduced') == 'true'
         return out
-    def report(s, what, case, roles=None):
+    def report(s, what, case, roles=None, soft=False):
         """a solver counterexample: replay, classify, record. Returns the role name if it is a known finding, else None"""
         rp = s.replay(case)
         path = os.path.join(VERIF, 'replays', f"{s.pid}-{hashlib.sha256(json.dumps(case, sort_keys=True, default=str).encode()).hexdigest()[:12]}.json")
@@ -114,7 +114,8 @@ class Check:
         json.dump(dict(property=s.pid, what=what, case=case, native=rp), open(path, 'w'), indent=1, default=str)
         if len(s.samples) < 12: s.samples.append(dict(counterexample=what, case={k: (v if not isinstance(v, float) else repr(v)) for k, v in case.items()}, native=rp))
         if not rp['reproduced']:
-            s.inconclusive.append(f'counterexample for "{what}" did not reproduce natively: {path}')
+            if not soft: s.inconclusive.append(f'counterexample for "{what}" did not reproduce natively: {path}')
+            s.last_noreplay = path
             return '__noreplay__'
         for kf in s.known:
             if kf.get('status') != 'open': continue
@@ -127,6 +128,29 @@ class Check:
         print(f'VIOLATION property={s.pid} replay={path}', flush=True)
         print(f'  {what}: {json.dumps(case, default=str)[:600]}', flush=True)
         return None
+    def decide(s, name, eng, ctx, goal, case_fn, what=None, roles=None, role_excl=None, vary=(), tries=6, delta=1e-3):
+        """prove (ctx => not goal). On sat: replay; known roles are excluded and the query repeated; a counterexample that
+        does not reproduce natively (typically a model sitting exactly on a floating-point decision boundary) is blocked with a
+        neighbourhood of radius delta in the `vary` variables and the query repeated. Returns 'unsat' | 'sat' | 'unknown' | 'noreplay'."""
+        excl, blocked, nore = [], [], 0
+        for attempt in range(tries):
+            tag = (' (known roles excluded)' if excl else '') + (f' (retry {nore})' if nore else '')
+            res, m = s.prove(name + tag, eng, *ctx, goal, *excl, *blocked)
+            if res != 'sat':
+                if res == 'unsat' and nore:
+                    s.inconclusive.append(f'{name}: {nore} solver counterexample(s) did not reproduce natively and the rest of the space is proved; last: {s.last_noreplay}')
+                    return 'noreplay'
+                return res
+            role = s.report(what or (name + ' fails'), case_fn(m), roles, soft=True)
+            if role == '__noreplay__':
+                nore += 1
+                if not vary: break
+                blocked.append(z3.And([z3.Or(v - m.eval(v, model_completion=True) >= delta, m.eval(v, model_completion=True) - v >= delta) for v in vary]))
+                continue
+            if role is not None and role_excl and role in role_excl: excl.append(role_excl[role]); continue
+            return 'sat'
+        if nore: s.inconclusive.append(f'{name}: solver counterexamples did not reproduce natively ({nore} tried); last: {s.last_noreplay}')
+        return 'noreplay'
     # ---- finish ----
     def finish(s):
         for e in getattr(s, '_engines', []): s.absorb(e)
